@@ -48,13 +48,21 @@ func (b Bundle) Fragment(mtu int) (bs []Bundle, err error) {
 		return
 	}
 
+	// If this Bundle is a fragment itself, the new fragments' offsets stay relative to the original payload and the
+	// total data length stays the one of the original payload.
+	baseOffset, totalDataLength := 0, payloadBlockLen
+	if b.PrimaryBlock.HasFragmentation() {
+		baseOffset = int(b.PrimaryBlock.FragmentOffset)
+		totalDataLength = int(b.PrimaryBlock.TotalDataLength)
+	}
+
 	for i := 0; i < payloadBlockLen; {
 		var (
 			fragPrimaryBlock PrimaryBlock
 			primaryOverhead  int
 		)
 
-		if fragPrimaryBlock, primaryOverhead, err = fragmentPrimaryBlock(b.PrimaryBlock, i, payloadBlockLen); err != nil {
+		if fragPrimaryBlock, primaryOverhead, err = fragmentPrimaryBlock(b.PrimaryBlock, baseOffset+i, totalDataLength); err != nil {
 			return
 		}
 
